@@ -42,6 +42,11 @@ type Check struct {
 	Rule  string
 	// E1: scenario list for a tier (deterministic order)
 	Scenarios func(tier string) []*world.Scenario
+	// E1, lazily: yields the scenarios of this shard only (for enumerations too large to materialise per worker);
+	// emit returns false when the time budget is exhausted
+	Gen func(tier string, shard, nshards int, emit func(sc *world.Scenario) bool)
+	// FromName rebuilds one scenario of Gen from its name (replay)
+	FromName func(name string) *world.Scenario
 	// E2: sequential enumerator; must honour shard/nshards and the deadline
 	Seq func(tier string, shard, nshards int, deadline time.Time, res *Result)
 	// budget in seconds per tier
